@@ -50,6 +50,9 @@ fn run(_prop: &str, _unit: &str, _outp: &str) {
 #[cfg(not(feature = "lifted"))]
 fn native(prop: &str, unit: &str, inp: &str, outp: &str) {
     let u = Unit::parse(unit);
+    // the native build differs from /repo only in the hash-map type (same iteration-order policy as
+    // the symbolic run, so that results are comparable bit for bit)
+    verif_rt::maps::set_policy(u.get_or("ord", "ins"));
     let assigns: Vec<BTreeMap<String, String>> = serde_json::from_str(&std::fs::read_to_string(inp).unwrap()).unwrap();
     std::panic::set_hook(Box::new(|_| {}));
     let mut results = vec![];
